@@ -758,6 +758,17 @@ example : (assertModel { api := .expectThat, existing := [], mismatch := some []
 example : (assertModel { api := .expectThat, existing := [], mismatch := some [], after := .skip, cleanups := [.interrupt] })
     = { raised := false, continued := true, names := [⟨0, 0⟩], forceFailure := true, outcome := .error, propagated := true } := by decide
 example : (assertModel { api := .expectThat, existing := [], mismatch := none, after := .skip }).outcome = .skip := by decide
+-- a failed expectation in setUp, which then skips: the test method and tearDown do not run, the run is a failure (not
+-- addSkip); likewise when setUp ends with an expected failure and a cleanup skips; without the mismatch: the skip
+example : (assertModel { api := .expectThat, existing := [], mismatch := some [], after := .skip, tearDown := .error,
+                         place := .setUp })
+    = { raised := false, continued := true, names := [⟨0, 0⟩], forceFailure := true, outcome := .failure, propagated := false } := by decide
+example : (assertModel { api := .expectThat, existing := [], mismatch := some [2], after := .xfail, cleanups := [.skip],
+                         place := .setUp }).outcome = .failure := by decide
+-- recorded in setUp before the upcall to the base setUp, setUp then returns: still a failure
+example : (assertModel { api := .expectThat, existing := [], mismatch := some [], place := .setUpEarly }).outcome = .failure := by decide
+example : (assertModel { api := .expectThat, existing := [], mismatch := none, after := .skip, tearDown := .error,
+                         place := .setUp }).outcome = .skip := by decide
 
 end TTV.Props.C07
 
@@ -888,31 +899,43 @@ theorem selectExn_forced (xs : List Exn) :
       simp at this
     simp [hmem, Exn.benign]
 
-/-- some stage of the test raises an exception that no handler claims (`KeyboardInterrupt`) -/
+/-- `tearDown` runs: the call sits in the test method, or `setUp` (with the call in it) returned -/
+def tearDownRuns (a : AssertIn) : Prop := a.place = .body ∨ a.after = .ret
+
+/-- some stage of the test that runs raises an exception that no handler claims (`KeyboardInterrupt`) -/
 def interrupted (a : AssertIn) : Prop :=
-  a.after = .interrupt ∨ a.tearDown = .interrupt ∨ .interrupt ∈ a.cleanups
+  a.after = .interrupt ∨ (tearDownRuns a ∧ a.tearDown = .interrupt) ∨ .interrupt ∈ a.cleanups
 
 theorem exn_intr_iff (x : Act) : x.exn = some .intr ↔ x = .interrupt := by
   cases x <;> simp [Act.exn]
 
+theorem setUpGaveUp_false_iff (a : AssertIn) : setUpGaveUp false a = false ↔ tearDownRuns a := by
+  obtain ⟨api, ex, mm, after, td, cs, place⟩ := a
+  cases place <;> cases after <;> simp [setUpGaveUp, tearDownRuns]
+
 theorem intr_mem_stages (a : AssertIn) : Exn.intr ∈ stageExns false a ↔ interrupted a := by
   unfold stageExns
   rw [mem_somesExn]
-  simp only [Bool.false_eq_true, ↓reduceIte]
-  simp only [List.mem_cons, List.mem_map, List.mem_reverse, interrupted]
-  constructor
-  · rintro (h | h | ⟨x, hx, h⟩)
-    · exact Or.inl ((exn_intr_iff _).mp h.symm)
-    · exact Or.inr (Or.inl ((exn_intr_iff _).mp h.symm))
-    · exact Or.inr (Or.inr ((exn_intr_iff x).mp h ▸ hx))
-  · rintro (h | h | h)
-    · exact Or.inl ((exn_intr_iff _).mpr h).symm
-    · exact Or.inr (Or.inl ((exn_intr_iff _).mpr h).symm)
-    · exact Or.inr (Or.inr ⟨.interrupt, h, rfl⟩)
+  simp only [Bool.false_eq_true, ↓reduceIte, List.cons_append, List.mem_cons, List.mem_append, List.mem_map,
+    List.mem_reverse, interrupted]
+  have hcl : (∃ x, x ∈ a.cleanups ∧ x.exn = some Exn.intr) ↔ Act.interrupt ∈ a.cleanups :=
+    ⟨fun ⟨x, hx, h⟩ => (exn_intr_iff x).mp h ▸ hx, fun h => ⟨.interrupt, h, rfl⟩⟩
+  have haf : some Exn.intr = a.after.exn ↔ a.after = .interrupt :=
+    ⟨fun h => (exn_intr_iff _).mp h.symm, fun h => ((exn_intr_iff _).mpr h).symm⟩
+  have htd : some Exn.intr = a.tearDown.exn ↔ a.tearDown = .interrupt :=
+    ⟨fun h => (exn_intr_iff _).mp h.symm, fun h => ((exn_intr_iff _).mpr h).symm⟩
+  rw [hcl, haf]
+  cases hg : setUpGaveUp false a with
+  | true =>
+    have hn : ¬ tearDownRuns a := by rw [← setUpGaveUp_false_iff]; simp [hg]
+    simp [hn]
+  | false =>
+    have hn : tearDownRuns a := (setUpGaveUp_false_iff a).mp hg
+    simp [hn, htd]
 
 /-- **C07 (a failed expectation fails the test — whatever happens afterwards).**  If `expectThat` recorded a
-mismatch, then for every continuation of the test — the rest of the body, `tearDown` and any number of
-cleanups each returning, skipping, raising an expected failure, an unexpected success, a failure, an
+mismatch — in the test method or in `setUp`, before or after its upcall (`a.place`) —, then for every continuation of the test — the rest of
+that stage, `tearDown` (which does not run when `setUp` gave up) and any number of cleanups each returning, skipping, raising an expected failure, an unexpected success, a failure, an
 error or a `KeyboardInterrupt` — the run is reported with `addFailure` (the forced `AssertionError` is
 appended last to the collected exceptions, and `_select_exception` prefers the last exception that is not
 a skip / expected failure), except when a stage raised an exception that has to propagate: then the
@@ -943,12 +966,16 @@ theorem cleanups_allRet (cs : List Act) (h : ∀ x ∈ cs, x = .ret) : somesExn 
 theorem runExns_allRet (a : AssertIn) (h : allRet a = true) : runExns false false a = [] := by
   simp only [allRet, Bool.and_eq_true, beq_iff_eq, List.all_eq_true] at h
   obtain ⟨⟨h1, h2⟩, h3⟩ := h
-  simp [runExns, stageExns, h1, h2, Act.exn, somesExn, cleanups_allRet a.cleanups h3]
+  have hc := cleanups_allRet a.cleanups h3
+  simp only [runExns, stageExns, h1, h2, Act.exn, Bool.false_eq_true, if_false, List.append_nil, List.cons_append]
+  split <;> simp [somesExn, hc]
 
 theorem runExns_allRet_raised (a : AssertIn) (h : allRet a = true) : runExns true false a = [.fail] := by
   simp only [allRet, Bool.and_eq_true, beq_iff_eq, List.all_eq_true] at h
   obtain ⟨⟨_, h2⟩, h3⟩ := h
-  simp [runExns, stageExns, h2, Act.exn, somesExn, cleanups_allRet a.cleanups h3]
+  have hc := cleanups_allRet a.cleanups h3
+  simp only [runExns, stageExns, h2, Act.exn, Bool.false_eq_true, if_false, if_true, List.append_nil, List.cons_append]
+  split <;> simp [somesExn, hc]
 
 /-- without a mismatch and with nothing else happening the test succeeds; a `MismatchError` raised by
 `assertThat` / `assert_that` and nothing else is a failure -/
@@ -1017,6 +1044,9 @@ example : (assertModel { api := .expectThat, existing := [], mismatch := some []
 example : (assertModel { api := .expectThat, existing := [], mismatch := some [], after := .skip, cleanups := [.interrupt] })
     = { raised := false, continued := true, names := [⟨0, 0⟩], forceFailure := true, outcome := .error, propagated := true } := by decide
 example : (assertModel { api := .expectThat, existing := [], mismatch := none, after := .skip }).outcome = .skip := by decide
+-- tearDown's KeyboardInterrupt counts only if tearDown runs
+example : ¬ interrupted { api := .expectThat, existing := [], mismatch := some [], after := .skip, tearDown := .interrupt,
+                          place := .setUp } := by simp [interrupted, tearDownRuns]
 
 end TTV.Props.C07
 
